@@ -18,7 +18,7 @@ use crate::{
     props::c03,
     rng::{hash_str, Rng},
     runner::{api as bracket, guard, Ctx},
-    sets::{self, SetDomain},
+    sets::{self},
 };
 
 #[allow(clippy::too_many_lines)]
@@ -30,7 +30,7 @@ pub fn case(ctx: &mut Ctx, idx: u64) {
         max_objects,
         ..Mix::default()
     };
-    let Some((mc, mut map)) = gen::gen_domain_map(&mut rng, &mx, Domain::Realistic) else {
+    let Some((mc, mut map)) = gen::gen_domain_map_ext(&mut rng, &mx, Domain::Realistic, 0, 15) else {
         ctx.count("skipped_no_domain_map");
         return;
     };
@@ -50,7 +50,7 @@ pub fn case(ctx: &mut Ctx, idx: u64) {
         let tname = mode_name(target);
         // every comparison below gives the same settings to both sides, so a passed_objects limit (0 and 1 in particular:
         // the calculators have early returns for them) is part of the settings space
-        let spec = sets::gen_setspec(&mut rng, target, SetDomain::Game);
+        let spec = sets::gen_setspec_wide(&mut rng, target, &map);
         let spec = if rng.chance(0.4) {
             let n = map.hit_objects.len() as u64;
             let p = match rng.below(6) {
